@@ -38,14 +38,16 @@ class _InjectedCrash(Exception):
 class _GatedQueue:
     """child side: every put waits for the scheduler's permission"""
 
-    def __init__(self, real_q, gate, die_after, die_code):
-        self.q, self.gate, self.die_after, self.die_code = real_q, gate, die_after, die_code
+    def __init__(self, real_q, gate, die_after, die_code, die_lock=False):
+        self.q, self.gate, self.die_after, self.die_code, self.die_lock = real_q, gate, die_after, die_code, die_lock
         self.n = 0
 
         self.crash_owner = None
 
     def _maybe_die(self):
         if self.die_after is not None and self.die_code < 0 and self.n == self.die_after:
+            if self.die_lock:
+                self.q._wlock.acquire()  # what the feeder thread holds while it writes a message into the pipe
             os.kill(os.getpid(), -self.die_code)
             time.sleep(60)
 
@@ -62,8 +64,8 @@ class _GatedQueue:
     put_nowait = put
 
 
-def _gated_target(target, call, qpos, real_q, gate, die_after, die_code):
-    gq = _GatedQueue(real_q, gate, die_after, die_code)
+def _gated_target(target, call, qpos, real_q, gate, die_after, die_code, die_lock=False):
+    gq = _GatedQueue(real_q, gate, die_after, die_code, die_lock)
     call = list(call)
     call[qpos] = gq
     devnull = open(os.devnull, "w")
@@ -132,6 +134,14 @@ class RealExec(vmp.Exec):
                         f"deliver(w{w.wid}) not visible in the pipe: {_fionread(fd)} bytes, expected {q.pending_bytes}"
                     )
                 time.sleep(0.0005)
+            # the bytes are in the pipe, but the child's feeder thread may still hold the queue's cross-process write lock
+            # for a moment; killing the child at its next event while it does would wedge every other writer (an artefact
+            # of this harness' timing, not a schedule of the model): wait until the lock is free again
+            wl = getattr(q.real, "_wlock", None)
+            if wl is not None:
+                if not wl.acquire(timeout=ACK_TIMEOUT):
+                    raise vmp.ReplayDivergence(f"deliver(w{w.wid}): the queue's write lock is still held {ACK_TIMEOUT} s after the bytes arrived")
+                wl.release()
         else:
             while True:
                 try:
@@ -155,7 +165,7 @@ class RealExec(vmp.Exec):
         call = [None if isinstance(a, vmp.VQueue) else a for a in p.args]
         rp = real_mp.Process(
             target=_gated_target,
-            args=(p.target, call, qpos, q.real, gate, f["k"] if f else None, f["code"] if f else 0),
+            args=(p.target, call, qpos, q.real, gate, f["k"] if f else None, f["code"] if f else 0, bool(f and f.get("lock"))),
         )
         rp.start()
         self.gates[p.wid] = gate
@@ -192,6 +202,15 @@ class RealExec(vmp.Exec):
         r = super().op_exitcode(p)
         self._check(f"exitcode(w{p.wid})", r, self.real_procs[p.wid].exitcode)
         return r
+
+    def op_kill(self, p, code):
+        super().op_kill(p, code)
+        rp = self.real_procs[p.wid]
+        if rp.is_alive():
+            os.kill(rp.pid, -code)
+        rp.join(ACK_TIMEOUT)
+        if rp.is_alive():
+            raise vmp.ReplayDivergence(f"kill(w{p.wid}): the real child survived signal {-code}")
 
     def op_join(self, p, timeout):
         super().op_join(p, timeout)
